@@ -45,6 +45,8 @@ def gen_tasks(tier, seed):
                 c = rng.sample(wes, 2)
                 c = [list(e) for e in dict.fromkeys(c)]
                 tasks.append({**base, "constraints": [c], "kwargs": {"weight_type": "int", "subset_constraints": [c]}})
+            if sum(fl.values()) <= 14 and (tier != "quick" or rng.random() < 0.3):
+                tasks.append({**base, "specx": True, "kwargs": {"weight_type": "int"}})
             # scale invariance
             c_ = rng.choice(SCALES)
             tasks.append({**base, "scale": c_, "kwargs": {"weight_type": "float"}})
@@ -119,8 +121,38 @@ def witness_ok(task, G, wit):
     return True
 
 
+def _spec_crosscheck(task, G, res):
+    """trusted-base check: the Euler-vector spec and the explicit walk-sequence spec agree on satisfiability for every k"""
+    dem = spec.demands_of(G, "flow", False, task["ignored"])
+    L = int(sum(f for _e, f in dem)) + 2
+    res["functions"] = ["(spec cross-validation, no repo code) spec.WalkEuler vs spec.WalkSeq"]
+    for k in (1, 2, 3):
+        _sp, cons = spec_k(task, G, k)
+        s1 = smt.solver(120000)
+        s1.add(cons)
+        r1 = smt.check(s1)
+        sq = spec.WalkSeq(G, k, L, wtype="int", tag="Q")
+        s2 = smt.solver(120000)
+        s2.add(sq.cons + spec.flow_decomposition(sq, dem))
+        r2 = smt.check(s2)
+        res["obligations"] += 1
+        if "unknown" in (r1, r2):
+            res["inconclusive"] += 1
+        elif r1 == r2:
+            res["discharged"] += 1
+        else:
+            res["harness_errors"].append(f"spec encodings disagree on {task['name']} k={k}: Euler {r1}, sequence {r2} (flow {task['edges']})")
+        if r1 == "sat":
+            break
+    res["nontrivial"] += 1
+    return res
+
+
 def run_task(task):
     res = new_result()
+    if task.get("specx"):
+        res["evaluations"] = 1
+        return _spec_crosscheck(task, models.graph_of(task), res)
     res["functions"] = ["MinFlowDecompCycles.solve/get_lowerbound_k", "kFlowDecompCycles.__init__/_encode_flow_decomposition", "AbstractWalkModelDiGraph.__init__/_encode_walks/_apply_safety_optimizations",
                         "stDiGraph.get_width/_build_condensation_expanded", "SolverWrapper.add_integer_continuous_product_constraint"]
     res["evaluations"] = 1
@@ -316,7 +348,7 @@ RULE = ("one case = (digraph with cycles in which every edge lies on an s-t walk
         "non-trivial = reference minimum >= 2 or a scale pair; programs = real kFlowDecompCycles LPs compared with the Euler-walk spec")
 ASSUMPTIONS = [
     "reference minimum = least k for which z3 finds k Euler multiplicity vectors (balanced, unit source outflow, rank-connected; per-edge multiplicity <= flow value, valid for integer weights >= 1; weight-0 walks allowed) with integer weights reproducing the flow",
-    "Euler vectors stand for walks (C14 shows the real reconstruction realises them; spec.WalkSeq cross-validates in thorough)",
+    "Euler vectors stand for walks: C14 shows the real reconstruction realises them, and the Euler spec is cross-validated against the explicit walk-sequence spec (length sum f + 2) on the instances with total flow <= 14 (disagreement = harness error)",
     "digraphs: curated shapes + sampled s/t graphs with <= 3 inner nodes; flow values <= 6, sum <= 30; k <= 4",
     "scale invariance compared on honest wrapper runs and by z3 feasibility of the captured LP_k for k <= 3",
 ]
